@@ -4,8 +4,10 @@ import (
 	"encoding/json"
 	"fmt"
 	"hash/fnv"
+	"os"
 	"path/filepath"
 	"runtime"
+	"strings"
 	"sync"
 	"sync/atomic"
 	"time"
@@ -33,7 +35,7 @@ SecAuditLogFormat JSON
 	if variant%2 == 0 {
 		cfg += "SecAuditLogType Serial\nSecAuditLog " + auditFile + "\n"
 	} else {
-		cfg += "SecAuditLogType Concurrent\nSecAuditLog " + auditFile + "\nSecAuditLogDir " + auditDir + "\nSecAuditLogStorageDir " + auditDir + "\n"
+		cfg += "SecAuditLogType Concurrent\nSecAuditLog " + auditFile + "\nSecAuditLogStorageDir " + auditDir + "\n"
 	}
 	cfg += `
 SecRule ARGS_GET:cx1 "@streq 1" "id:10,phase:1,pass,nolog,ctl:ruleRemoveTargetById=200;ARGS_GET:x1"
@@ -164,6 +166,95 @@ type c06Params struct {
 var c06YieldCtr, c06Yields atomic.Int64
 var c06SiteCount sync.Map
 
+// c06JudgeAudit: writers sharing one audit log. At the quiescent point after the concurrent phase the
+// log must hold exactly one intact record per transaction: serial = one JSON document per line with
+// distinct transaction ids; concurrent = one index entry per transaction (header line, then at most one
+// request line and one status line, then "<id> - <path>") with the named file present and parseable.
+func c06JudgeAudit(w *fw.W, text string, pr c06Params, auditFile, auditDir string, total int) {
+	data, err := os.ReadFile(auditFile)
+	vcase := map[string]any{"config": text, "goroutines": pr.Goroutines, "transactions": total}
+	if err != nil {
+		w.Violation("audit-log-unreadable-after-concurrent-phase", "audit-log judge", vcase, nil, nil, err.Error())
+		return
+	}
+	lines := strings.Split(strings.TrimRight(string(data), "\n"), "\n")
+	if pr.Variant%2 == 0 {
+		ids := map[string]bool{}
+		for _, ln := range lines {
+			var rec struct {
+				Transaction struct {
+					ID string `json:"id"`
+				} `json:"transaction"`
+			}
+			if err := json.Unmarshal([]byte(ln), &rec); err != nil || rec.Transaction.ID == "" {
+				w.Violation("serial-audit-record-torn", "audit-log judge", vcase, nil, map[string]any{"line": clip(ln, 600)}, fmt.Sprint("a line of the shared serial audit log is not one JSON record: ", err))
+				return
+			}
+			if ids[rec.Transaction.ID] {
+				w.Violation("serial-audit-record-duplicated", "audit-log judge", vcase, nil, map[string]any{"id": rec.Transaction.ID}, "two records with one transaction id")
+				return
+			}
+			ids[rec.Transaction.ID] = true
+		}
+		if len(ids) != total {
+			w.Violation("serial-audit-record-count", "audit-log judge", vcase, total, len(ids), "records in the shared serial audit log after the concurrent phase")
+		}
+		w.Count("audit_records_checked", len(ids))
+		return
+	}
+	entries := 0
+	var group []string
+	for _, ln := range lines {
+		group = append(group, ln)
+		j := strings.LastIndex(ln, " - "+auditDir)
+		if j < 0 {
+			continue
+		}
+		entries++
+		problem := ""
+		hdr, reqs, stats := 0, 0, 0
+		for k, g := range group[:len(group)-1] {
+			switch {
+			case strings.Contains(g, " - - ["):
+				hdr++
+				if k != 0 {
+					problem = "entry header not at the start of its entry"
+				}
+			case strings.HasPrefix(g, ` "`):
+				reqs++
+			default:
+				stats++
+			}
+		}
+		if problem == "" && (hdr != 1 || reqs > 1 || stats > 1) {
+			problem = fmt.Sprintf("%d headers, %d request lines, %d status lines inside one index entry", hdr, reqs, stats)
+		}
+		file := ln[j+3:]
+		if problem == "" {
+			fb, err := os.ReadFile(file)
+			var rec map[string]any
+			if err != nil {
+				problem = "file named by the index entry: " + err.Error()
+			} else if err := json.Unmarshal(fb, &rec); err != nil {
+				problem = "file named by the index entry is not one JSON record: " + err.Error()
+			}
+		}
+		if problem != "" {
+			w.Violation("concurrent-audit-index-entry-torn", "audit-log judge", vcase, nil, map[string]any{"entry": clip(strings.Join(group, "\n"), 800)}, problem)
+			return
+		}
+		group = nil
+	}
+	if len(group) != 0 {
+		w.Violation("concurrent-audit-index-entry-torn", "audit-log judge", vcase, nil, map[string]any{"tail": clip(strings.Join(group, "\n"), 800)}, "lines after the last complete index entry")
+		return
+	}
+	if entries != total {
+		w.Violation("concurrent-audit-index-count", "audit-log judge", vcase, total, entries, "index entries after the concurrent phase")
+	}
+	w.Count("audit_records_checked", entries)
+}
+
 func c06InstallYield(seed int64) {
 	verifapi.SetYield(func(site string) {
 		n := c06YieldCtr.Add(1)
@@ -194,8 +285,7 @@ func c06Run(w *fw.W, b fw.Batch) {
 		// sequential reference outcomes on a private WAF
 		ref, err := sl.BuildText(text)
 		if err != nil {
-			w.Count("build_errors", 1)
-			w.Cover("build_error_samples", err.Error())
+			w.Violation("shared-waf-build-fails", "construction", map[string]any{"config": text}, nil, nil, err.Error())
 			return
 		}
 		total := pr.Goroutines * pr.PerG
@@ -215,6 +305,8 @@ func c06Run(w *fw.W, b fw.Batch) {
 			}
 		}
 		sl.CloseWAF(ref)
+		os.Remove(auditFile)
+		os.RemoveAll(auditDir)
 
 		c06InstallYield(w.Seed*1000 + int64(b.Index)*10 + int64(round))
 		shared, err := sl.BuildText(text)
@@ -282,6 +374,7 @@ func c06Run(w *fw.W, b fw.Batch) {
 		bwg.Wait()
 		w.Count("concurrent_transactions", total)
 		w.Count("rounds", 1)
+		c06JudgeAudit(w, text, pr, auditFile, auditDir, total)
 		for k := 0; k < 6; k++ {
 			c06ConcurrentConstruction(w, round*10+k)
 		}
@@ -331,7 +424,7 @@ func init() {
 		ID: "C06", Level: "exploration",
 		Rule:        "G goroutines each run T generated transactions on ONE shared WAF (rules with several target exclusions extended at run time by ctl:ruleRemoveTargetById, shared transformation chains, @rx/@pm/@restpath/@validateNid patterns, captures, setenv, serial or concurrent audit writer) while builder goroutines construct, probe and close other WAFs that share the same pattern strings; in every round 8 WAFs introducing never-seen transformation chains are also constructed at the same moment and probed against the reference model; under the Go race detector (-race, which also enables checkptr), GOMAXPROCS in {2,4,16}, with seeded Gosched/sleep yields injected at the pattern cache, the transaction pool and the transformation-id table. Monitors: race/fatal reports (de-duplicated by conflicting coraza frames), per-transaction differential against the outcome computed sequentially beforehand, pattern-cache owner invariant at quiescent points. Non-trivial: a concurrent transaction with more than one fired rule that was compared; distinct by (request, position, round).",
 		Assumptions: []string{"a clean race-detector run covers only the accesses executed under the schedules that occurred", "transactions whose sequential outcome is not stable over three runs are excluded from the differential (C04's business)"},
-		Required:    []string{"concurrently_constructed_wafs_probed", "concurrent_transactions", "builder_wafs_built_and_closed", "snapshot_checks", "yields_taken", "yield_site:pool.get", "yield_site:memo.do.afterLoad", "yield_site:tid.lock"},
+		Required:    []string{"concurrently_constructed_wafs_probed", "concurrent_transactions", "builder_wafs_built_and_closed", "snapshot_checks", "audit_records_checked", "yield_site:auditlog.concurrent.index", "yields_taken", "yield_site:pool.get", "yield_site:memo.do.afterLoad", "yield_site:tid.lock"},
 		Plan: func(tier fw.Tier, seed int64) []fw.Batch {
 			var bs []fw.Batch
 			add := func(variant, procs, g, per, builders, rounds int) {
@@ -362,4 +455,11 @@ func init() {
 			// schedule-dependent: a witness is re-run as its whole batch (the driver passes the batch spec)
 		},
 	})
+}
+
+func clip(s string, n int) string {
+	if len(s) > n {
+		return s[:n] + "…"
+	}
+	return s
 }
